@@ -42,12 +42,12 @@ type Obligation struct {
 	Helper      bool   // auxiliary lemma: never a violation by itself
 	noHelpers   bool
 	CTI         *Obligation // lane loops: the failed invariant-step clause whose model gives a concrete lane input
-	absMul      bool // symbolic multiplications abstracted to an uninterpreted function
-	noOptAx     bool // ground map-value allocation instances left out as well
-	Reach       Term   // path condition the goal is stated under
-	splitOn     string // extra assertion: one disjunct of the path condition (path splitting)
-	expectFail  bool   // recorded as a known finding: decided with one bounded attempt
-	noHeapAx    bool // quantified heap axioms left out (first attempt; sound weakening)
+	absMul      bool        // symbolic multiplications abstracted to an uninterpreted function
+	noOptAx     bool        // ground map-value allocation instances left out as well
+	Reach       Term        // path condition the goal is stated under
+	splitOn     string      // extra assertion: one disjunct of the path condition (path splitting)
+	expectFail  bool        // recorded as a known finding: decided with one bounded attempt
+	noHeapAx    bool        // quantified heap axioms left out (first attempt; sound weakening)
 	excludeTags map[string]bool
 	Helpers     []*Obligation // lemmas assumed (when discharged) while deciding this obligation
 	WantSat     bool          // cover / vacuity queries: expected answer is sat
@@ -105,8 +105,8 @@ type Ctx struct {
 	inQuant       int
 	needQuantHeap bool
 	defBody       map[string]string // define-fun name -> body
-	defNames      map[string]bool // names introduced by define-fun (not usable inside patterns: they expand)
-	quantVars     [][2]string // (name, sort) of the kept quantifiers being evaluated, outermost first
+	defNames      map[string]bool   // names introduced by define-fun (not usable inside patterns: they expand)
+	quantVars     [][2]string       // (name, sort) of the kept quantifiers being evaluated, outermost first
 	quantLoads    [][]Term          // heap reads made while evaluating the body of each open quantifier (pattern candidates)
 	trigSeen      map[string]bool
 	boolDefs      map[string]string // define-fun name -> body, for Bool definitions (path conditions)
